@@ -38,6 +38,7 @@ import (
 
 type BatchCase struct {
 	Content     pbt.S
+	HugeKiB     []int `json:",omitempty"` // lines of this many KiB each (one repeated letter, own letter per line) in front of Content: several MiB inside one batch
 	Via         string // file | reader | faulty-reader | gzip
 	Chunks      []int  // reader paths: bytes per Read (cycled); faulty-reader: 0 = stall (0, nil)
 	Batch       int
@@ -156,6 +157,15 @@ var batchSeq int
 
 func checkBatch(c BatchCase) error {
 	content := []byte(c.Content)
+	if len(c.HugeKiB) > 0 {
+		var hb bytes.Buffer
+		for i, k := range c.HugeKiB {
+			hb.Write(bytes.Repeat([]byte{byte('A' + i%26)}, k<<10))
+			hb.WriteString(fmt.Sprintf("#%d\n", i))
+		}
+		hb.Write(content)
+		content = hb.Bytes()
+	}
 	handed := content // the bytes the source hands over before it ends or fails
 	wantErrs := 0
 	var srcErr error
@@ -354,6 +364,18 @@ func genBatch(t *rapid.T) BatchCase {
 	c.Batch = rapid.SampledFrom([]int{1, 1, 2, 3, 7, 64}).Draw(t, "batch")
 	c.BatchBuffer = rapid.IntRange(1, 8).Draw(t, "buffer")
 	c.SlowEvery = rapid.SampledFrom([]int{0, 0, 1, 3, 10}).Draw(t, "slow")
+	if rapid.IntRange(0, 199).Draw(t, "huge") == 137 {
+		// a few very long lines in a row (a batch then holds many MiB): every one of them is a line
+		n := rapid.IntRange(3, 8).Draw(t, "nhuge")
+		for i := 0; i < n; i++ {
+			c.HugeKiB = append(c.HugeKiB, rapid.SampledFrom([]int{129, 700, 1100, 1500, 2100}).Draw(t, "hugeKiB"))
+		}
+		c.Content = genBatchLines(t, 20)
+		c.Batch = rapid.SampledFrom([]int{7, 64, 1000}).Draw(t, "hugeBatch")
+		if c.Via == "reader" {
+			c.Chunks = []int{65536, 1 << 20}
+		}
+	}
 	return c
 }
 
@@ -369,6 +391,7 @@ var batchSpec = pbt.Spec[BatchCase]{
 		l.Add(nb > c.BatchBuffer+3, "batches>buffer+3")
 		l.Add(c.SlowEvery > 0, "slow-consumer")
 		l.Add(c.Batch == 1, "batch=1")
+		l.Add(len(c.HugeKiB) > 0, "several-MiB-in-one-batch")
 		return nb > c.BatchBuffer+3 && c.Obs.Get("lines") >= 10, l
 	},
 }
